@@ -427,8 +427,12 @@ func c13GuardFields(n *c13Node, sf *c13SpecFields, stack []ast.Node) ([]*types.V
 			if p.Tag != nil {
 				conds = append(conds, p.Tag)
 			}
+			// `switch spec := ra.spec; { case spec.X != "": panic }`: the init statement only
+			// names a value; the locals it defines are resolved like any single-definition local
 			if p.Init != nil {
-				return nil, false
+				if as, ok := p.Init.(*ast.AssignStmt); !ok || as.Tok != token.DEFINE {
+					return nil, false
+				}
 			}
 		case *ast.TypeSwitchStmt, *ast.ForStmt, *ast.RangeStmt, *ast.SelectStmt:
 			return nil, false
